@@ -354,8 +354,12 @@ func runC08(c *Ctx) {
 	if c.Replay != nil {
 		var wc c08WaitCase
 		if json.Unmarshal(c.Replay, &wc) == nil && wc.Family == "wait" {
-			wc.Script = c08WaitScripts()[wc.Name]
-			c08WaitRun(c, wc)
+			if sc, ok := c08WaitScripts()[wc.Name]; ok {
+				wc.Script = sc
+				c08WaitRun(c, wc)
+			} else {
+				runC08Wait(c) // scripts derived from the named ones: run the family
+			}
 			return
 		}
 		var cs c08Case
